@@ -19,7 +19,7 @@ RULE = (
 )
 REQUIRED = {
     "cmaes_tells": 300, "cmaes_updates": 30, "best_ledger_checks": 300,
-    "mean_recombination_checks": 20, "round_trips": 6, "cem_samples_checked": 500,
+    "mean_recombination_checks": 20, "cmaes_bounded_runs": 3, "round_trips": 6, "cem_samples_checked": 500,
     "cem_updates_checked": 20, "train_cmaes_runs": 1,
 }
 TIMEOUT = {"quick": 1200, "thorough": 7000}
@@ -63,8 +63,16 @@ def run_cmaes(case):
 
     rng = np.random.default_rng(case["seed"])
     dim, pop = case["dim"], case["pop"]
+    init = rng.normal(size=dim)
+    bounds = None
+    if rng.random() < 0.5:
+        # box constraints tight enough that sampled candidates get clipped
+        half = rng.uniform(0.3, 2.0, size=dim)
+        bounds = np.stack([init - half * rng.uniform(0.2, 1.0, size=dim),
+                           init + half * rng.uniform(0.2, 1.0, size=dim)], axis=1)
+        res.see("cmaes_bounded_runs")
     ok, config = guarded(res, "C16/raises/CMAESConfig.create", cm.CMAESConfig.create,
-                         active=case["active"], bounds=None,
+                         active=case["active"], bounds=bounds,
                          maximize=case["maximize"], min_variance=1e-14,
                          min_fitness_dist=1e-12, max_condition=1e7, n_params=dim,
                          n_samples_per_update=pop)
@@ -76,7 +84,6 @@ def run_cmaes(case):
         res.violation("C16/cmaes/weights", f"recombination weights {w.tolist()} not "
                       f"positive / non-increasing / summing to one")
         return res
-    init = rng.normal(size=dim)
     cov = None if rng.random() < 0.5 else np.abs(rng.normal(size=dim)) + 0.1
     ok, state = guarded(res, "C16/raises/CMAESState.create", cm.CMAESState.create,
                         jax.random.key(case["seed"] % 99991), jnp.asarray(init),
@@ -89,6 +96,7 @@ def run_cmaes(case):
         return res
     population = cm.Population.create(samples=samples)
     ledger = []  # (internal fitness, params)
+    generation = []  # candidates evaluated since the last distribution update
     n_updates = 0
     target = rng.normal(size=dim)
 
@@ -123,6 +131,7 @@ def run_cmaes(case):
         fb32 = float(np.float32(fb))  # feedback is summed as a float32 array
         internal = -fb32 if case["maximize"] else fb32
         ledger.append((internal, x))
+        generation.append(x)
         res.see("cmaes_tells")
         finite = [f for f, _ in ledger if not np.isnan(f)]
         if finite:
@@ -154,7 +163,9 @@ def run_cmaes(case):
                 res.see("stopped_runs")
                 break
             fit = np.asarray(population.fitness, np.float64)
-            smp = np.asarray(population.samples, np.float64)
+            # the evaluated population: what get_next_parameters handed out
+            smp = np.asarray(generation[-pop:], np.float64)
+            generation = []
             var_old = float(state.var)
             ok, _ = guarded(res, "C16/raises/update_search_distribution",
                             cm.update_search_distribution, config, state, population)
